@@ -276,6 +276,9 @@ def main : IO Unit := do
     [[0xF0, 0x90, 0x80, 0x80], [0xF4, 0x8F, 0xBF, 0xBF], [0xF4, 0x90, 0x80, 0x80], [0x41, 0xE2, 0x82, 0xAC, 0x42], [0xF0, 0x9F, 0x92], [0xED, 0xA0, 0x80, 0x41]]
   out := add (firstDiff "Utf8LossyChunksIter::next" (strs.map fun b =>
     (s!"bytes={repr (b.map UInt8.toNat)}", toString (repr (Gen.Fn.lossy_next b)), toString (repr (some (Str.lossyNext b)))))) out
+  let showO := fun (r : Outcome (List UInt8)) => match r with | .bad w => s!"bad {w}" | .ok t => s!"ok {repr (t.map UInt8.toNat)}" | .panic => "panic" | .err => "err" | .envBad => "envBad"
+  out := add (firstDiff "String::from_utf8_lossy_in" ((strs.flatMap fun b => [(b, true), (b, false)]).map fun (b, dbg) =>
+    (s!"bytes={repr (b.map UInt8.toNat)} dbg={dbg}", showO (Gen.Fn.from_utf8_lossy_in dbg b), showO (Str.fromUtf8Lossy dbg b)))) out
   -- String methods on short texts (valid UTF-8 and not)
   let texts : List (List UInt8) := [[], [0x41], [0x41, 0x42, 0x43], [0xC3, 0xA9], [0x41, 0xE2, 0x82, 0xAC, 0x42], [0xF0, 0x9F, 0x92, 0xA9, 0x41], [0x41, 0x80], [0xE2, 0x82]]
   let showB := fun {α : Type} [Repr α] (r : Outcome (List UInt8 × α)) => match r with | .bad _ => "bad" | .ok (t, a) => s!"ok {repr (t.map UInt8.toNat)} {repr a}" | .panic => "panic" | .err => "err" | .envBad => "envBad"
@@ -296,6 +299,11 @@ def main : IO Unit := do
     (s!"text={repr (t.map UInt8.toNat)} keep={an} panicAt={repr pa}",
       (match Gen.Fn.str_retain a pa (t, t.length) with | (s, .ok _) => s!"ok {repr ((RsS.text s).map UInt8.toNat)} returned" | (s, .panic) => s!"ok {repr ((RsS.text s).map UInt8.toNat)} unwound" | _ => "bad"),
       (match Str.retain t a pa with | .ok o => s!"ok {repr (o.bytes.map UInt8.toNat)} {if o.panicked then "unwound" else "returned"}" | _ => "bad")))) out
+  let bds : List Str.Bd := [.unbounded, .incl 0, .incl 1, .incl 3, .incl (USIZE - 1), .excl 0, .excl 1, .excl 4, .excl (USIZE - 1)]
+  out := add (firstDiff "String::replace_range" ((texts.flatMap fun t => bds.flatMap fun a => bds.flatMap fun b => [true, false].map fun o => (t, a, b, o)).map fun (t, a, b, o) =>
+    (s!"text={repr (t.map UInt8.toNat)} range=({repr a}, {repr b}) ovf={o}",
+      showO (match Gen.Fn.str_replace_range o (a, b) [0x58, 0xC3, 0xA9] (t, t.length) with | (s, .ok _) => Outcome.ok (RsS.text s) | (_, .panic) => .panic | (_, .bad w) => .bad w | (_, .err) => .err | (_, .envBad) => .envBad),
+      showO (Str.replaceRange o t a b [0x58, 0xC3, 0xA9])))) out
   -- boxed.rs step sequences
   let cells : List (List Bx.Cell) := [[], [⟨1, 10⟩], [⟨1, 10⟩, ⟨2, 20⟩, ⟨3, 30⟩]]
   let fx0 : Bx.Fx := {}
